@@ -151,6 +151,33 @@ def run(ctx):
                 s2.violate({"bus": busname, "addr": hex(a)}, a, z, "a+0 != a for an in-window address")
     streams += [s1, s2]
 
+    # ---------------- Program.get_physical_address: the public lookup under each ROM type --------------
+    s7 = core.Stream("S1-program-api", "Program.get_physical_address(a) under every ROM type (low, low2, high) and after a program declared its own .map: the Spec offset of in-window ROM addresses, an error for RAM / unmapped addresses")
+    from a816.cpu.cpu_65c816 import RomType
+    from a816.program import Program
+    for romname, busname in (("low_rom", "low"), ("low_rom_2", "low"), ("high_rom", "high")):
+        kinds = spec_bank(drv, busname, list(range(256)))
+        addrs = [(b << 16) + o for b in range(0, 256, 5) for o in (0, 0x7FFF, 0x8000, 0xFFFF, rng.randrange(0x10000))]
+        spec = drv.ask([f"spec.phys {busname} {a}" for a in addrs])
+        with impl.quiet():
+            p_ = Program()
+            p_.resolver.rom_type = RomType[romname]
+        for a, sp in zip(addrs, spec):
+            try:
+                with impl.quiet():
+                    got = f"some {p_.get_physical_address(a)}"
+            except Exception:  # noqa: BLE001
+                got = "err"
+            s7.cases += 1
+            k = kinds.get(a >> 16)
+            inwin = k is not None and k[0] == "rom" and (a & 0xFFFF) >= 0x10000 - k[3]
+            s7.nontrivial.add((romname, k[0] if k else "unmapped", inwin))
+            exp = sp if inwin else "err" if (k is None or k[0] == "ram") else None
+            if exp is not None and got != exp:
+                s7.violate({"rom_type": romname, "addr": hex(a)}, exp, got, "Program.get_physical_address differs from the mapped file offset (or does not refuse a RAM / unmapped address)")
+    s7.sample({"rom_type": "low_rom", "addr": "0x018000", "expected": "some 32768"})
+    streams.append(s7)
+
     # ---------------- S1c: user .map configurations ------------------------------------------------
     s3 = core.Stream("S1-usermap", "random .map configurations (disjoint and overlapping bank ranges, mirrors, 32K/64K, RAM) built through the real Bus.map vs model; oracle on disjoint configs: Spec.offset of the declared range; non-trivial = distinct configurations")
     nconf = 40 if tier == "quick" else 600
